@@ -15,7 +15,9 @@
      getnodes     case table: successor list x missing destination records         (C51)
      publish      state graph, every edge printed once (BFS, bounded by MaxLevel)  (C26)
      publish_sim  the same machine under -simulate, behaviours printed             (C26)
-     publish_obs  recorded steps of the real server judged by the predicates       (C26)        *)
+     publish_obs  recorded steps of the real server judged by the predicates       (C26)
+     race_obs     outcomes of two requests racing on the real server, judged as
+                  "one before the other" by the same predicates (operations: TunnelRace)  (C26)   *)
 EXTENDS Integers, Sequences, FiniteSets, TLC, Json, TunnelCtlMethods
 
 CONSTANTS Family,
@@ -62,14 +64,18 @@ ExtractImpl(cls) ==
     [] cls = "mal_id"  -> "panic"                  \* recovered by the http middleware: 500
     [] OTHER           -> "identity"
 
-(* verifyClientIdentity (twirp RequestRouted hook); the switch is on the bare method name *)
-HookImpl(m, cls) ==
+(* verifyClientIdentity (twirp RequestRouted hook); the switch is on the bare method name.
+   fault: what the DHT does to the hook's lookup of the caller's client record: none | retry (a retryable error on every
+   attempt of the retry wrapper: the key's owner is in a membership change) | fatal (another error) *)
+HookImplF(m, cls, fault) ==
   IF cls = "nodeleg" THEN "internal"
   ELSE IF m.name \in {"Ping", "RegisterIdentity"} THEN "pass"
   ELSE LET x == ExtractImpl(cls) IN
        IF x # "identity" THEN x
+       ELSE IF fault # "none" THEN "unauthenticated" \* getClientByToken fails: the caller is not verified as registered
        ELSE IF cls \in RegClasses THEN "pass"       \* getClientByToken finds a record
        ELSE "unauthenticated"
+HookImpl(m, cls) == HookImplF(m, cls, "none")
 
 (* the handlers: Ping needs nothing, every other handler starts with extractAuthenticated *)
 HandlerImpl(m, cls) ==
@@ -78,21 +84,23 @@ HandlerImpl(m, cls) ==
 
 (* a request of class nodeleg cannot come through the transport (the http server attaches the
    delegation to every connection); it is the handler invoked with a bare context *)
-GateImpl(m, cls) ==
+GateImplF(m, cls, fault) ==
   IF cls = "nodeleg" THEN HandlerImpl(m, cls)
-  ELSE LET h == HookImpl(m, cls) IN IF h = "pass" THEN HandlerImpl(m, cls) ELSE h
+  ELSE LET h == HookImplF(m, cls, fault) IN IF h = "pass" THEN HandlerImpl(m, cls) ELSE h
+GateImpl(m, cls) == GateImplF(m, cls, "none")
 
-RefusedImpl(m, cls) == GateImpl(m, cls) # "handled"
+RefusedImpl(m, cls, fault) == GateImplF(m, cls, fault) # "handled"
 (* the DHT is written only by handlers that ran, and by the hook's upgrade of an old record *)
-MayWriteImpl(m, cls) == GateImpl(m, cls) = "handled" \/ (cls = "reg_old" /\ HookImpl(m, cls) = "pass")
+MayWriteImpl(m, cls, fault) == GateImplF(m, cls, fault) = "handled" \/ (cls = "reg_old" /\ HookImplF(m, cls, fault) = "pass")
 
 (* the statement *)
 Exempt(m) == m.svc = "TunnelService" /\ m.name \in {"Ping", "RegisterIdentity"}
 MustRefuse(m, cls) == ~Exempt(m) /\ cls \notin RegClasses
 
-GatingCases == [m : MethodRecs, cls : CallerClasses, body : BodyClasses]
-GatingExpected(x) == [mustRefuse |-> MustRefuse(x.m, x.cls), impl |-> GateImpl(x.m, x.cls)]
-GatingHolds(x) == MustRefuse(x.m, x.cls) => (RefusedImpl(x.m, x.cls) /\ ~MayWriteImpl(x.m, x.cls))
+GatingCases == [m : MethodRecs, cls : CallerClasses, body : BodyClasses, fault : {"none"}]
+               \cup [m : MethodRecs, cls : UnregClasses \cup RegClasses, body : {"victim", "self"}, fault : {"retry", "fatal"}]
+GatingExpected(x) == [mustRefuse |-> MustRefuse(x.m, x.cls), impl |-> GateImplF(x.m, x.cls, x.fault)]
+GatingHolds(x) == MustRefuse(x.m, x.cls) => (RefusedImpl(x.m, x.cls, x.fault) /\ ~MayWriteImpl(x.m, x.cls, x.fault))
 
 -------------------------------------------------------------------------------
 (* C51 GetNodes.  Ring nodes are <<id, chord address>>; address 1 is the asked node itself; virtual
@@ -286,12 +294,33 @@ StepOK(pre, call, ok, post) ==
 (* recorded steps of the real server.  obs_tunctl_states.ndjson: the distinct projections of the DHT content the
    driver printed, in the Compact layout (sets as lists; without l and u); obs_tunctl.ndjson: the distinct steps
    {"pre": index, "call": .., "ok": bool, "post": index} *)
-ObsStates == IF Family = "publish_obs" THEN ndJsonDeserialize("obs_tunctl_states.ndjson") ELSE <<>>
+ObsStates == IF Family \in {"publish_obs", "race_obs"} THEN ndJsonDeserialize("obs_tunctl_states.ndjson") ELSE <<>>
 ObsRecs   == IF Family = "publish_obs" THEN ndJsonDeserialize("obs_tunctl.ndjson") ELSE <<>>
 ObsView(o) == [hostnames |-> [c \in Clients |-> ToSet(o.h[c])],
                routes |-> [n \in Hosts |-> [i \in 1..3 |-> [client |-> o.r[n][i][1], server |-> o.r[n][i][2]]]],
                extra |-> o.x, custom |-> o.c]
 ObsViews == [i \in 1..Len(ObsStates) |-> ObsView(ObsStates[i])]
+
+(* racing requests (drv/tunctl race; the operations themselves are validated against TunnelRace): two requests a, b ran at
+   the same time from the projected content pre and left post.  The statement is read per request: the outcome must be
+   that of a before b or of b before a, every step of the chain satisfying the predicates above.  obs_race.ndjson:
+   {"pre": index, "post": index, "a": call, "aok": bool, "b": call, "bok": bool}.  The content between the two requests
+   was not observed: candidates are pre, post, what the transcribed handler makes of pre, and those with the routes of the
+   hostname taken from post / cleared. *)
+RaceRecs == IF Family = "race_obs" THEN ndJsonDeserialize("obs_race.ndjson") ELSE <<>>
+FullSt(v) == [hostnames |-> v.hostnames, routes |-> v.routes, extra |-> v.extra, custom |-> v.custom,
+              held |-> [c \in Clients |-> FALSE], used |-> 0]
+ViewOf(sf) == [hostnames |-> sf.hostnames, routes |-> sf.routes, extra |-> sf.extra, custom |-> sf.custom]
+MidCands(pre, post, first) ==
+  LET m == ViewOf(Apply(FullSt(pre), first).st)
+      h == first.h IN
+  {pre, post, m, [pre EXCEPT !.routes[h] = post.routes[h]], [pre EXCEPT !.routes[h] = [i \in 1..3 |-> NoRoute]],
+   [m EXCEPT !.routes[h] = post.routes[h]]}
+Chain(pre, x, xok, y, yok, post) ==
+  \E mid \in MidCands(pre, post, x) : StepOK(pre, x, xok, mid) /\ StepOK(mid, y, yok, post)
+RaceVerdict(r) ==
+  LET pre == ObsViews[r.pre]  post == ObsViews[r.post] IN
+  [ab |-> Chain(pre, r.a, r.aok, r.b, r.bok, post), ba |-> Chain(pre, r.b, r.bok, r.a, r.aok, post)]
 
 -------------------------------------------------------------------------------
 VARIABLES c,      \* case tables: the case; publish families: unused ("-")
@@ -300,17 +329,19 @@ VARIABLES c,      \* case tables: the case; publish families: unused ("-")
           hist    \* publish_sim: the behaviour so far
 vars == <<c, done, st, hist>>
 
-IsTable == Family \in {"gating", "getnodes", "publish_obs"}
+IsTable == Family \in {"gating", "getnodes", "publish_obs", "race_obs"}
 
 Cases == CASE Family = "gating"      -> GatingCases
            [] Family = "getnodes"    -> GNCases
            [] Family = "publish_obs" -> 1..Len(ObsRecs)
+           [] Family = "race_obs"    -> 1..Len(RaceRecs)
            [] OTHER                  -> {"-"}
 
 Expected(x) ==
   CASE Family = "gating"      -> GatingExpected(x)
     [] Family = "getnodes"    -> GNExpected(x)
     [] Family = "publish_obs" -> LET r == ObsRecs[x] IN StepVerdict(ObsViews[r.pre], r.call, r.ok, ObsViews[r.post])
+    [] Family = "race_obs"    -> RaceVerdict(RaceRecs[x])
 
 Init == /\ c \in Cases
         /\ done = FALSE
